@@ -295,6 +295,28 @@ extern "C" void vp_enum(int tier, uint64_t seed, uint32_t shard, uint32_t nshard
                 continue;
             }
             std::vector<uint64_t> N;
+#ifdef VP_PROP_C15
+            if (op < OP_BC_DIV && W >= 4) {
+                // divisor vectors with equalities between lanes: blocks of 2, 4, ... W/2 equal lanes ({a,a,b,b}), one uniform block next to
+                // lanes that all differ from it, a repeating period - the shapes a "do all lanes share one divisor?" shortcut gets wrong
+                const std::vector<uint64_t> S = vpl::int_lattice(B);
+                for (unsigned bs = 2; bs < W; bs *= 2)
+                    for (unsigned shape = 0; shape < 3; ++shape)
+                        for (size_t j = 0; j < S.size(); j += (tier ? 3 : 11)) {
+                            const uint64_t da = S[j] ? S[j] : 3, db = S[(j * 7 + 5) % S.size()] ? S[(j * 7 + 5) % S.size()] : 5;
+                            numerators_for(B, sgn, da, seed + j, N);
+                            std::vector<uint64_t> N2; numerators_for(B, sgn, db, seed + j + 1, N2);
+                            for (size_t r = 0; r < 4; ++r) {
+                                for (unsigned i = 0; i < W; ++i) {
+                                    const bool first = shape == 0 ? ((i / bs) % 2 == 0) : shape == 1 ? (i < bs) : (i % bs == 0);
+                                    c.v[1][i] = first ? da : (shape == 1 ? (db + i) | 1 : db);
+                                    c.v[0][i] = first ? N[(r * 5 + i) % N.size()] : N2[(r * 3 + i) % N2.size()];
+                                }
+                                emit(&c, ctx);
+                            }
+                        }
+            }
+#endif
             size_t fill = 0; uint64_t rot = seed + op;
             const size_t dstep = (tier == 0 && op >= OP_QUOT && op != OP_BC_DIV) ? 3 : 1;
             for (size_t j = 0; j < D.size(); j += dstep) {
